@@ -171,6 +171,27 @@ def run_replay(hist, buffer_size, window):
     return d.rec, bare_probe(s), ok
 
 
+def run_replay_sync(hist, buffer_size, window=None):
+    """ReplaySubject with its DEFAULT scheduler (CurrentThreadScheduler.singleton(): a trampoline).
+    No drain calls: a ScheduledObserver drain scheduled from a top-level call runs inline (the
+    trampoline is idle), one scheduled from inside an observer callback is queued behind the
+    running one.  subscribe() at top level is itself a trampoline action, so the replay is
+    delivered before it returns.  The clock is the wall clock: ('adv', d) is not used here and
+    `window` is None or far larger than a run lasts.  -> (records, probe, ok)"""
+    from reactivex.scheduler import CurrentThreadScheduler
+    top, scripts = hist
+    tramp = CurrentThreadScheduler.singleton().get_trampoline()
+    ok = tramp.idle()
+    s = make_subject("replay", buffer_size=buffer_size, window=window, scheduler=None)
+    d = Driver(s, scripts, scheduler=None)
+    for op in top:
+        if op[0] == "adv":
+            continue
+        d.do(op)
+        ok = ok and tramp.idle()
+    return d.rec, bare_probe(s), ok
+
+
 # --------------------------------------------------------------------------
 # Gallina
 # --------------------------------------------------------------------------
@@ -762,10 +783,10 @@ def replay_sync(chk, pid, path):
 # C22: ReplaySubject on a virtual-time scheduler
 # --------------------------------------------------------------------------
 
-REPLAY_IMPORTS = "Base.Prelude Ops.Machine Subjects.Subject Subjects.Replay"
+REPLAY_IMPORTS = "Base.Prelude Ops.Machine Subjects.Subject Subjects.Replay Subjects.ReplaySched"
 
 
-def oracle_replay(hist, bs, w, rec, probe):
+def oracle_replay(hist, bs, w, rec, probe, sync=False):
     """C22 on the observed run.  For every observer o (first subscribe call S, made at virtual
     time T):
       replay(o) = the values of the on_next calls that took effect before S, restricted to the
@@ -781,7 +802,9 @@ def oracle_replay(hist, bs, w, rec, probe):
     reentrant = any(c["parent"] is not None for c in tr.order)
 
     def fail(what, **d):
-        bad.append((f"{what}|reentrant={int(reentrant)}", dict(d, what=what, buffer_size=bs, window=w)))
+        bad.append((f"{what}|reentrant={int(reentrant)}|sync={int(sync)}",
+                    dict(d, what=what, buffer_size=bs, window=w, scheduler="CurrentThreadScheduler" if sync
+                         else "VirtualTimeScheduler")))
 
     for o in tr.observers:
         got = [n for (_, n, _) in tr.view[o]]
@@ -834,6 +857,8 @@ def oracle_replay(hist, bs, w, rec, probe):
     # a bare subscribe(): DisposedException is raised by _subscribe_core itself; a stored error is
     # only queued on the scheduler (not drained by the probe), so nothing is raised
     want = ("raised", DISPOSED) if tr.final_status == "disposed" else ("returned",)
+    if sync and tr.final_status not in ("disposed", "live") and tr.final_status[1][0] == "E":
+        want = ("raised", tr.final_status[1][1])     # the stored error is delivered inline and re-raised
     if probe != want:
         fail("bare-subscribe", probe=probe, expected=want, status=tr.final_status)
     return bad
@@ -854,6 +879,36 @@ def replay_cases(tier, rng):
                       rng.choice([None, None, 0, 1, 2, 3, 5, 100])))
     return cases, {"exhaustive_flat": n_flat, "random": nrand,
                    "flat_scope": f"all sequences of length <= {L} over {alpha} x (buffer_size, window) in {configs}"}
+
+
+def replay_sync_cases(tier, rng):
+    """histories for the default (trampoline) scheduler: no clock advances, no window.
+    Exhaustive: two live subscribers, every tail of <= 2 emissions, one of them reacting inside its
+    first or second callback with one call (emit / complete / fail / unsubscribe / subscribe / dispose)."""
+    a, b, c = 0, 2, 1
+    cases = []
+    tail = [("next", a), ("next", b), ("done",), ("err", 11), ("sub", 2), ("unsub", 1)]
+    reactions = [("next", c), ("done",), ("err", 12), ("unsub", 0), ("unsub", 1), ("sub", 3), ("dispose",)]
+    configs = [None, 0, 1, 2] if tier == "quick" else [None, 0, 1, 2, 3]
+    L = 2 if tier == "quick" else 3
+    for bs in configs:
+        for n in range(1, L + 1):
+            for t in itertools.product(tail, repeat=n):
+                for who in (0, 1):
+                    for r in reactions:
+                        for when in (0, 1):
+                            sc = [[], [r]] if when else [[r]]
+                            cases.append((([("sub", 0), ("sub", 1)] + list(t), {who: sc}), bs, None))
+    n_ex = len(cases)
+    alpha = [("sub", 0), ("sub", 1), ("next", a), ("next", b), ("done",), ("unsub", 0), ("dispose",)]
+    for bs in (None, 1):
+        cases += [(h, bs, None) for h in enum_flat(alpha, 3)]
+    n_flat = len(cases) - n_ex
+    nrand = 700 if tier == "quick" else 12000
+    for _ in range(nrand):
+        cases.append((gen_history(rng, adv=False), rng.choice([None, 0, 1, 2, 3, 4]),
+                      rng.choice([None, None, 1000000])))
+    return cases, {"sync_exhaustive_reentrant": n_ex, "sync_exhaustive_flat": n_flat, "sync_random": nrand}
 
 
 def check_replay(chk):
@@ -901,14 +956,69 @@ def check_replay(chk):
                           size=hist_size(hm))
         gal.append((f"(({gopt(bs)}, {gopt(w)}), {g_hist(h, 'R')})", f"({g_log(rec, 'R', 'RE')}, true)"))
         kept.append((h, bs, w))
+    # ---- the same property with the default scheduler (CurrentThreadScheduler trampoline)
+    scases, sscope = replay_sync_cases(tier, chk.rng)
+    gal2, kept2 = [], []
+    for (h, bs, w), (a_, b_) in zip(kept, gal):
+        gal2.append((f"(false, {a_})", b_))
+        kept2.append(("vt", h, bs, w))
+    H["sync"] = new_hist()
+    H["sync"]["trampoline_not_idle_discarded"] = 0
+    nontrivial_sync = set()
+    for (h, bs, w) in scases:
+        rec, probe, ok = run_replay_sync(h, bs, w)
+        chk.cov["evaluations"] += 1
+        if not ok:
+            H["sync"]["trampoline_not_idle_discarded"] += 1
+            continue
+        hist_stats(h, rec, H["sync"])
+        tr = Trace(rec)
+        if any(len(tr.view[o]) >= 2 for o in tr.observers) and is_nontrivial(rec):
+            nontrivial_sync.add(hist_key(h) + repr((bs, w)))
+        for sig, detail in oracle_replay(h, bs, w, rec, probe, sync=True):
+            def still(hh, _sig=sig):
+                r2, p2, ok2 = run_replay_sync(hh, bs, w)
+                return ok2 and any(s == _sig for s, _ in oracle_replay(hh, bs, w, r2, p2, sync=True))
+            hm = shrink(h, still)
+            r2, p2, _ = run_replay_sync(hm, bs, w)
+            d2 = [d for s, d in oracle_replay(hm, bs, w, r2, p2, sync=True) if s == sig][0]
+            chk.violation(f"ReplaySubject|{sig}",
+                          {"class": "ReplaySubject", "scheduler": "default (CurrentThreadScheduler)",
+                           "buffer_size": bs, "window": w, "history": hist_json(hm),
+                           "pool": [repr(v) for v in POOL.values],
+                           "implementation_log": g_log(r2, "R", "RE"), "oracle": d2,
+                           "expected": "see harness/subj.py:oracle_replay docstring (per-subscriber order = "
+                                       "retained values then later notifications in call order)"},
+                          size=hist_size(hm))
+        gal2.append((f"(true, (({gopt(bs)}, {gopt(w)}), {g_hist(h, 'R')}))",
+                     f"({g_log(rec, 'R', 'RE')}, true)"))
+        kept2.append(("sync", h, bs, w))
+    prelude2 = (f"Definition model (c : bool * ((option Z * option Z) * rhistory Z)) := "
+                f"run_shistory (fst c) (fst (fst (snd c))) (snd (fst (snd c))) {FUEL} (snd (snd c)).\n"
+                "Definition out_eqb (a b : list (@revent Z) * bool) := "
+                "list_eqb revent_eqb (fst a) (fst b) && Bool.eqb (snd a) (snd b).\n")
+    bad2, logs2 = correspond(pid, "k1s", REPLAY_IMPORTS,
+                             "(bool * ((option Z * option Z) * rhistory Z)) * (list (@revent Z) * bool)",
+                             gal2, prelude2)
+    if bad2:
+        firsts = [i for i in bad2 if i >= 0][:3]
+        detail = {"n_disagreements": len(bad2), "logs": logs2[:1],
+                  "first (sync?, ((buffer_size, window), history)) / implementation log": [gal2[i] for i in firsts]}
+        if firsts:
+            detail["model_says"] = lib.coq_show(pid, REPLAY_IMPORTS, f"model {gal2[firsts[0]][0]}", prelude2)
+            detail["mode, history, buffer_size, window"] = (kept2[firsts[0]][0], hist_json(kept2[firsts[0]][1]),
+                                                            kept2[firsts[0]][2], kept2[firsts[0]][3])
+        chk.tie_broken("correspondence K1: Subjects/ReplaySched.v (both scheduler modes) vs ReplaySubject", detail)
+    chk.cov["traces_validated_against_impl"] = len(gal2)
+    chk.cov["disagreements_checked"] = len(gal2)
     prelude = (f"Definition model (c : (option Z * option Z) * rhistory Z) := "
                f"run_rhistory (fst (fst c)) (snd (fst c)) {FUEL} (snd c).\n"
                "Definition out_eqb (a b : list (@revent Z) * bool) := "
                "list_eqb revent_eqb (fst a) (fst b) && Bool.eqb (snd a) (snd b).\n")
     bad, logs = correspond(pid, "k1", REPLAY_IMPORTS,
                            "((option Z * option Z) * rhistory Z) * (list (@revent Z) * bool)", gal, prelude)
-    chk.cov["traces_validated_against_impl"] = len(gal)
-    chk.cov["disagreements_checked"] = len(gal)
+    chk.cov["traces_validated_against_impl"] += len(gal)
+    chk.cov["disagreements_checked"] += len(gal)
     if bad:
         firsts = [i for i in bad if i >= 0][:3]
         detail = {"n_disagreements": len(bad), "logs": logs[:1],
@@ -917,9 +1027,17 @@ def check_replay(chk):
             detail["model_says"] = lib.coq_show(pid, REPLAY_IMPORTS, f"model {gal[firsts[0]][0]}", prelude)
             detail["history"] = hist_json(kept[firsts[0]][0])
         chk.tie_broken("correspondence K1: Subjects/Replay.v vs ReplaySubject on a VirtualTimeScheduler", detail)
-    chk.cov["distinct_nontrivial"] = len(nontrivial)
+    chk.cov["distinct_nontrivial"] = len(nontrivial) + len(nontrivial_sync)
+    chk.cov["distinct_nontrivial_by_scheduler"] = {"VirtualTimeScheduler": len(nontrivial),
+                                                   "CurrentThreadScheduler": len(nontrivial_sync)}
+    scope.update(sscope)
     chk.cov["exhaustive"] = True
-    chk.cov["rule"] = ("exhaustive small scope (" + scope["flat_scope"] + ") + seeded random call trees (as C20, plus "
+    chk.cov["rule"] = ("TWO scheduler modes.  (a) default CurrentThreadScheduler (trampoline; drains run inline at top "
+                       "level, queued when scheduled from inside a callback): exhaustive `sub0 sub1 ++ tails of <= 2/3 "
+                       "emissions` with observer 0 or 1 reacting in its 1st or 2nd callback with one of next/done/err/"
+                       "unsub0/unsub1/sub3/dispose, buffer_size None,0,1,2(,3); exhaustive flat histories of length "
+                       "<= 3; seeded random call trees.  (b) VirtualTimeScheduler: "
+                       "exhaustive small scope (" + scope["flat_scope"] + ") + seeded random call trees (as C20, plus "
                        "clock advances 0..5 ticks) with buffer_size in None,0..4 and window in None,0,1,2,3,5,100 "
                        "ticks.  The subject runs on a VirtualTimeScheduler drained after every top-level call.  "
                        "non-trivial = distinct (history, configuration) with deliveries to >= 2 observers, one "
